@@ -166,8 +166,7 @@ def register(R):
             # one instruction per vehicle: ids of the chosen instructions are pairwise distinct ...
             forall([kx, ky], Implies(And(kx >= 0, kx < ky, ky < fi.len()), at(fi, kx).vehicle_id != at(fi, ky).vehicle_id)),
             # ... because each is the head of the stack of a key already visited, and stacks hold their own vehicle's instructions
-            forall([kx, j], Implies(And(kx >= 0, kx < fi.len(), j >= i, j < xs.len()), at(fi, kx).vehicle_id != at(xs, j))),
-            forall([kx], Implies(And(kx >= 0, kx < fi.len()), exists([j], And(j >= 0, j < i, at(xs, j) == at(fi, kx).vehicle_id)))))
+            forall([kx, j], Implies(And(kx >= 0, kx < fi.len(), j >= i, j < xs.len()), at(fi, kx).vehicle_id != at(xs, j))))
     R.loop(uk, "for", 0, props=("C09",), invariant=fi_inv, types={"final_instructions": SeqTy(IU)})
 
     # ------------------------------------------------------------ Update.apply_update (whole step)
